@@ -24,6 +24,7 @@ RULE = (
     "model (C16: text record after the pointer records) through open_alos2; low-resolution images "
     "and descriptor fields through the trailer reader, byte for byte. Non-trivial: count / length "
     "differs from the default used by the other checks. Each axis is enumerated completely."
+    " Facility lengths also around 2^16 and 2^24 (a 16 MiB record)."
 )
 ASSUMPTIONS = [
     "frozen layout / exposure tables",
